@@ -1085,6 +1085,71 @@ def rule_structdecl_syntax(chk, prog, tier):
     r.exhaustive = False
 
 
+# ------------------------------------------------------------------ C10.u tag specifier syntax
+
+def rule_tagspec_syntax(chk, prog, tier):
+    r = chk.rule('C10.u', 'struct, union and enum are followed by a tag, a braced body, or both (6.7.2.1, 6.7.2.2 syntax): the keyword alone (`struct *p;`, `void f(struct);`, `union;`) is diagnosed; an enum tag without a body must already be complete',
+                 floor=20, oracle='C11 6.7.2.1p1, 6.7.2.2p1, 6.7.2.3p3')
+    fn = prog.require_func('tagspec', 'decl.c')
+    CASES = []
+    for kw in ('TSTRUCT', 'TUNION', 'TENUM'):
+        rec = kw != 'TENUM'
+        body = ['{', 'M', '}'] if rec else ['{', 'A', '}']
+        for after in (';', '*', ')', ','):
+            CASES.append((kw, [after], False))
+            CASES.append((kw, ['I', after], rec))            # an incomplete enum type cannot be named (6.7.2.3p3)
+            CASES.append((kw, body + [after], True))
+            CASES.append((kw, ['I'] + body + [after], True))
+    TK = {';': 'TSEMICOLON', '*': 'TMUL', ')': 'TRPAREN', ',': 'TCOMMA', '{': 'TLBRACE', '}': 'TRBRACE', 'I': 'TIDENT', 'A': 'TIDENT', 'M': 'TINT'}
+    for kw, rest, ok in CASES:
+        def runner(it):
+            w = World(prog, it=it, target='x86_64-sysv')
+            toks = [kw] + rest + ['E']
+            tokobj = it.gobj('tok'); st = {'i': 0}
+            def cur(): return toks[min(st['i'], len(toks) - 1)]
+            def load():
+                c = cur()
+                tokobj.f[('kind',)] = ev(prog, c if c.startswith('T') and len(c) > 1 else TK.get(c, 'TEOF'))
+                tokobj.f[('lit',)] = Ptr(it.mkstr(list(b'tag' if c == 'I' else b'A'), 'id'), (0,)) if c in ('I', 'A') else None
+                tokobj.f[('loc', 'file')] = None; tokobj.f[('loc', 'line')] = 1; tokobj.f[('loc', 'col')] = 1
+            def nxt(i2, a, e): st['i'] += 1; load(); return None
+            def consume(i2, a, e):
+                if tokobj.f[('kind',)] == a[0]: nxt(i2, a, e); return 1
+                return 0
+            def expect(i2, a, e):
+                if tokobj.f[('kind',)] != a[0]: raise Terminal('error', 'expected token')
+                nxt(i2, a, e); return None
+            def structdecl(i2, a, e):
+                if cur() != 'M': raise Terminal('error', 'expected member declaration')
+                nxt(i2, a, e)
+                m = Obj('member', 'heap'); m.f.update({('name',): Ptr(i2.mkstr(list(b'm'), 'm'), (0,)), ('type',): w.t('int'), ('qual',): 0, ('offset',): 0, ('bits', 'before'): 0, ('bits', 'after'): 0, ('bitfield',): 0, ('next',): None})
+                b = a[1]; t = i2.load(b.obj, b.path + ('type',))
+                t.obj.f[('u', 'structunion', 'members')] = Ptr(m, ()); t.obj.f[('size',)] = 4; t.obj.f[('align',)] = 4
+                return None
+            tags = {}
+            def gettag(i2, a, e):
+                return tags.get(bytes(read_cstr(i2, a[1])).decode())
+            def puttag(i2, a, e):
+                tags[bytes(read_cstr(i2, a[1])).decode()] = a[2]; return None
+            it.models.update({'next': nxt, 'consume': consume, 'expect': expect, 'structdecl': structdecl, 'attr': lambda i2, a, e: 0, 'gnuattr': lambda i2, a, e: 0, 'scopegettag': gettag, 'scopeputtag': puttag,
+                              'scopeputdecl': lambda i2, a, e: None, 'scopegetdecl': lambda i2, a, e: None,
+                              'xmalloc': lambda i2, a, e: Ptr(Obj('heap@%s' % e.get('line'), 'heap'), ()),
+                              'error': lambda i2, a, e: (_ for _ in ()).throw(Terminal('error', cmodel.fmt_of(i2, a, 1))),
+                              'fatal': lambda i2, a, e: (_ for _ in ()).throw(Terminal('fatal', cmodel.fmt_of(i2, a, 0)))})
+            load()
+            it.call(fn, [Ptr(Obj('scope', 'heap'), ())])
+            return st['i']
+        runs = explore(prog, runner, {}, max_runs=4, on_unsupported='keep')
+        key = 'tagspec:%s %s' % (kw[1:].lower(), ' '.join('tag' if x == 'I' else 'int m;' if x == 'M' else x for x in rest))
+        if len(runs) != 1 or runs[0].outcome not in ('return', 'terminal:error'):
+            raise AnalysisBroken('%s: %s' % (key, [(x.outcome, x.detail) for x in runs][:2]))
+        if ok:
+            r.instance(runs[0].outcome == 'return' and runs[0].value == len(rest), key, 'decl.c:%s' % fn.get('line'), 'valid specifier of %d tokens; cproc: %s %s' % (len(rest), runs[0].outcome, runs[0].value if runs[0].outcome == 'return' else runs[0].detail))
+        else:
+            r.instance(runs[0].outcome == 'terminal:error', key, 'decl.c:%s' % fn.get('line'), 'must be diagnosed; cproc accepts it as a specifier of %s tokens' % (runs[0].value if runs[0].outcome == 'return' else '?'))
+    r.exhaustive = False
+
+
 # ------------------------------------------------------------------ C10.p restrict
 
 def rule_restrict(chk, prog, tier):
@@ -1375,6 +1440,7 @@ def run(chk, tier):
     chk.guard('C10.r', lambda: rule_builtin_names(chk, prog, tier))
     chk.guard('C10.s', lambda: rule_paramlist_syntax(chk, prog, tier))
     chk.guard('C10.t', lambda: rule_bitfield_designators(chk, prog, tier))
+    chk.guard('C10.u', lambda: rule_tagspec_syntax(chk, prog, tier))
     from props import c08
     chk.guard('C08.e', lambda: c08.rule_valist(chk, prog, tier))        # va_arg of a structure or union (unsupported) is diagnosed
     from props import c05
